@@ -56,7 +56,11 @@ class Module:
         for node in body:
             if isinstance(node, ast.Import):
                 for a in node.names:
-                    self.imports[a.asname or a.name.split(".")[0]] = (a.name, None)
+                    if a.asname:
+                        self.imports[a.asname] = (a.name, None)
+                    else:
+                        # `import a.b` binds the name `a` to package a
+                        self.imports[a.name.split(".")[0]] = (a.name.split(".")[0], None)
             elif isinstance(node, ast.ImportFrom):
                 m = self._resolve_rel(node.level, node.module)
                 for a in node.names:
